@@ -487,6 +487,8 @@ class ndarray:
             r = self.a[v]
             if isinstance(r, _np.ndarray):
                 return self._view(r)
+            if self._dt.kind == "m" and type(r) is SDelta and _unit(self._dt) != "ns":
+                return _DeltaScalar(r, self._dt)      # the scalar keeps the array's unit
             return r
         if kind == "bool0":
             if bool(v):
@@ -2017,9 +2019,9 @@ class _DeltaScalar(SDelta):
         if ndt.kind == "m":
             u = _unit(ndt)
             if u in _UNIT_PER_S and u != "s":
-                return _DeltaScalar(self, ndt, half=self.half)
+                return _DeltaScalar(_coarsen(self, ndt), ndt, half=self.half)
             # seconds or coarser: numpy floors
-            return _DeltaScalar(self, ndt)
+            return _DeltaScalar(_coarsen(self, ndt), ndt)
         if not is_f(self.half):
             u = _unit(self.dt)
             if u not in ("ns", "us", "ms"):
